@@ -59,7 +59,15 @@ def execute(args: argparse.Namespace):
         print(f'KeyError: {e}')
         return -2
 
-    _, data = sign_req(key.name, key.key_bits, kc.get_signer({'key': key.name}))
+    try:
+        signer = kc.get_signer({'key': key.name})
+    except KeyError as e:
+        # the request carries the name of the key's default certificate as KeyLocator
+        print('Requested certificate does not exist.')
+        print(f'KeyError: {e}')
+        return -2
+
+    _, data = sign_req(key.name, key.key_bits, signer)
     text = base64.standard_b64encode(bytes(data)).decode()
     cnt = (len(text) + 63) // 64
     for i in range(cnt):
